@@ -391,6 +391,14 @@ class FreeEnergy(InterpolatableFunction):
                         f"vev={ode.y}"
                     )
                     break
+                if TList.size > 0 and abs(ode.t - TList[-1]) <= 1e-10 * abs(ode.t):
+                    # The integrator reached its end point in two steps, the last one of
+                    # the size of the rounding error. Two abscissae that close make the
+                    # cubic spline (and its derivatives) ill-conditioned: keep the last.
+                    TList[-1] = ode.t
+                    fieldList[-1] = ode.y
+                    potentialEffList[-1] = potentialEffT
+                    continue
                 # append results to lists
                 TList = np.append(TList, [ode.t], axis=0)
                 fieldList = np.append(fieldList, [ode.y], axis=0)
